@@ -517,8 +517,7 @@ def check_state_writers(ctx, F):
             else:
                 ctx.ok('R7', 'constructor literal (inventory)', b.defpath, 'state := %s' % txt, key=key, loc=k)
     ctx.extra['ans_literals'] = n_lit
-    if n_lit < 10:
-        ctx.bad('R7', 'floor: AnsCoder literal sites', ANS, 'only %d literal sites found (12 on the reference tree)' % n_lit, key='R7/floor/ans-literals')
+    ctx.floor('R7', 'floor: AnsCoder literal sites', ANS, n_lit, 10, 'only %d literal sites found (12 on the reference tree)' % n_lit, key='R7/floor/ans-literals')
     allowed = ('clear', 'encode_symbol', 'decode_symbol', 'seek')
     for dp, b in sorted(writers.items()):
         key = 'R7/state-writer/' + dp
@@ -526,8 +525,7 @@ def check_state_writers(ctx, F):
             ctx.ok('R7', 'assigns `state` (inventory of writers)', dp, 'one of the coding steps / clear / seek', key=key)
         else:
             ctx.unresolved('R7', 'assigns `state` (inventory of writers)', dp, 'new writer of AnsCoder::state outside {clear, encode_symbol, decode_symbol, seek}: not understood by this check', key=key, loc=rules.loc(b))
-    if len(writers) < 4:
-        ctx.bad('R7', 'floor: state writers', ANS, 'only %d functions assign `state` (4 expected)' % len(writers), key='R7/floor/state-writers')
+    ctx.floor('R7', 'floor: state writers', ANS, len(writers), 4, 'only %d functions assign `state` (4 expected)' % len(writers), key='R7/floor/state-writers')
     cl = [b for b in F.bodies if b.promoted is None and b.name == 'clone' and b.self_adt == ANS and b.impl_trait == 'core::clone::Clone']
     key = 'R7/clone-derived/' + ANS
     (ctx.ok if cl and all(b.derived for b in cl) else ctx.bad)('R7', 'Clone is the derived field-wise copy', ANS, '#[derive(Clone)]' if cl else 'no Clone impl', key=key)
